@@ -153,13 +153,20 @@ def build_cdriver():
     return exe
 
 
+def limit_as():
+    """preexec_fn of every harness process: a runaway allocation in the code under test must end that process (an
+    observation for the caller), not exhaust the machine"""
+    import resource
+    resource.setrlimit(resource.RLIMIT_AS, (24 << 30, 24 << 30))
+
+
 def mbt(profile, engine, *args, timeout=3600, env_extra=None, check=True):
     exe = build(profile)
     env = dict(os.environ)
     if env_extra:
         env.update(env_extra)
     p = subprocess.run([exe, engine, *args], stdout=subprocess.PIPE, stderr=subprocess.PIPE, text=True,
-                       timeout=timeout, env=env)
+                       timeout=timeout, env=env, preexec_fn=limit_as)
     if check and p.returncode != 0:
         sys.stdout.write(p.stdout[-3000:])
         sys.stdout.write(p.stderr[-3000:])
